@@ -140,6 +140,7 @@ type ccase struct {
 	Phases  []phase `json:"phases"`
 	history []string
 	anchor  bool
+	lost    string // a subscription that was accepted but is not registered (case abandoned)
 	recv    [][]omsg
 	overlap int
 	errs    []string
@@ -152,7 +153,7 @@ func genCase(r *common.Rng, corpusKind int) *ccase {
 		c.Pattern = "c19w"
 	case x < 60:
 		c.Pattern = "c19p"
-	case x < 90:
+	case x < 95:
 		c.Pattern = "c19m"
 	default:
 		c.Pattern = "c19i"
@@ -301,27 +302,34 @@ type runner struct {
 	has     map[int]bool
 	mu      sync.Mutex // protects cur/has
 	nsubbed int
+	everSub bool
 }
 
 func (r *runner) errf(f string, a ...any) { r.c.errs = append(r.c.errs, fmt.Sprintf(f, a...)) }
 
 // wait until n callbacks are registered and, if the swamp is in memory, it is sending events
 // (SubscribeToSwampEvents activates a loaded swamp in a deferred call after registering)
-func (r *runner) settle(n int) {
+func (r *runner) settleWithin(n int, d time.Duration) bool {
 	hy, sname := r.srv.Zeus.GetHydra(), rig.Name(r.swamp)
-	dl := time.Now().Add(10 * time.Second)
+	dl := time.Now().Add(d)
 	for hydra.VerifEventSubscriberCount(hy, sname) != n {
 		if time.Now().After(dl) {
-			r.errf("subscriber count did not reach %d", n)
-			return
+			return false
 		}
 		time.Sleep(50 * time.Microsecond)
+	}
+	return true
+}
+
+func (r *runner) settle(n int) {
+	if !r.settleWithin(n, 30*time.Second) {
+		r.errf("subscriber count did not reach %d", n)
 	}
 }
 
 func (r *runner) settleActive() {
 	hy, sname := r.srv.Zeus.GetHydra(), rig.Name(r.swamp)
-	dl := time.Now().Add(10 * time.Second)
+	dl := time.Now().Add(30 * time.Second)
 	for {
 		loaded, active := hydra.VerifEventSendingState(hy, sname)
 		if !loaded || active {
@@ -368,7 +376,16 @@ func (r *runner) churn(ph phase) {
 		}
 		wg.Wait()
 		r.nsubbed += len(ph.Sub) - len(ph.Unsub)
-		r.settle(r.nsubbed)
+		if !r.everSub && len(ph.Sub) > 1 {
+			// several clients subscribe at the same time to a swamp nobody subscribed to before:
+			// every accepted SubscribeToEvents must end up registered
+			if !r.settleWithin(r.nsubbed, 3*time.Second) {
+				r.c.lost = fmt.Sprintf("%d clients subscribed concurrently as the first subscribers of the swamp; only %d callbacks are registered",
+					len(ph.Sub), hydra.VerifEventSubscriberCount(r.srv.Zeus.GetHydra(), rig.Name(r.swamp)))
+			}
+		} else {
+			r.settle(r.nsubbed)
+		}
 	} else {
 		for _, s := range ph.Unsub {
 			r.stopSub(s)
@@ -380,6 +397,9 @@ func (r *runner) churn(ph phase) {
 			r.nsubbed++
 			r.settle(r.nsubbed)
 		}
+	}
+	if len(ph.Sub) > 0 {
+		r.everSub = true
 	}
 	if r.nsubbed > 0 && len(ph.Sub) > 0 {
 		r.settleActive()
@@ -631,9 +651,22 @@ func runCase(srv *rig.Server, ci int, c *ccase) {
 			c.history = append(c.history, "CUnload")
 		}
 		r.churn(*ph)
+		if c.lost != "" {
+			c.Phases = c.Phases[:i+1]
+			for w := range ph.Writers {
+				ph.Writers[w] = nil
+			}
+			break
+		}
 		r.runWriters(ph)
 	}
 	r.finish()
+	if c.lost != "" { // nothing further can be judged: the Go-side oracle reports the lost subscription
+		c.history = nil
+		for s := range c.recv {
+			c.recv[s] = nil
+		}
+	}
 }
 
 // hook-driven schedule: client 0 unsubscribes; if its unsubscribe reaches StopSendingEvents it is
@@ -774,7 +807,7 @@ func main() {
 	for len(cases) < n {
 		cases = append(cases, genCase(rng.Fork("case"), 0))
 	}
-	common.Parallel(len(cases), 6, func(i int) {
+	common.Parallel(len(cases), 8, func(i int) {
 		if !cases[i].StopRace {
 			runCase(srv, i, cases[i])
 		}
@@ -824,6 +857,10 @@ func main() {
 		idx := run.Add(caseTerm(c), map[string]any{"case": c, "received": c.recv}, nt)
 		for _, e := range c.errs {
 			run.Violate(idx, "harness", "operation_failed", e)
+		}
+		if c.lost != "" {
+			run.Hist("concurrent_first_subscribers_one_lost")
+			run.Violate(idx, "a subscribed client receives the events of its window", "concurrent_first_subscribers_one_lost", c.lost)
 		}
 	}
 	run.Meta.Traces = len(cases)
